@@ -411,6 +411,12 @@ OutOk(c) == Valid(CaseOutSchema(c), OutJson(c))
 StructuredEqualsOutput(c, o) == Success(o) => SameJ(Sc(o), OutJson(c))
 OutputValid(c, o)            == Success(o) => Valid(CaseOutSchema(c), Sc(o))
 TextFallback(c, o)           == (Success(o) /\ ~c.content) => \E i \in DOMAIN o.texts : SameJ(o.texts[i], Sc(o))
+(* "plus a text rendering of IT": the text is a rendering of the JSON of the   *)
+(* handler's output - of THIS call's handler, also when other calls are in     *)
+(* flight on the same server (TypedToolConc.tla).  Implied by the two clauses  *)
+(* above taken together; stated separately so that a result whose structured   *)
+(* content and whose text disagree is diagnosed on both sides.                 *)
+TextRendersOutput(c, o)      == (Success(o) /\ ~c.content) => \E i \in DOMAIN o.texts : SameJ(o.texts[i], OutJson(c))
 BadOutputIsError(c, o)       == ~OutOk(c) => ~Success(o)
 (* The other half of "output that violates the output schema is reported as   *)
 (* an error RATHER THAN RETURNED": the handlers of the family never return an *)
@@ -423,7 +429,7 @@ BadOutputIsError(c, o)       == ~OutOk(c) => ~Success(o)
 (* on which registration filled the cache.                                    *)
 ValidOutputReturned(c, o)    == OutOk(c) => Success(o)
 HoldsOut(c, o) == o.ran /\ StructuredEqualsOutput(c, o) /\ OutputValid(c, o) /\ TextFallback(c, o) /\ BadOutputIsError(c, o)
-                  /\ ValidOutputReturned(c, o)
+                  /\ ValidOutputReturned(c, o) /\ TextRendersOutput(c, o)
 
 (* Code-shaped: mcp/server.go toolForErr, after the handler returned.         *)
 BadText == <<"bad", 0>>
